@@ -46,7 +46,7 @@ type luaQuery struct {
 
 type luaTrace struct {
 	h      *HarnessSpec
-	role   string // "validation" | "witness" | "cex"
+	role   string // "validation" (oracle: encoder) | "fixed-history" | "witness" | "cex" (oracle: statement)
 	label  string
 	query  *luaQuery
 	hist   *lua.History
@@ -341,6 +341,7 @@ func runLuaChecks(prop, tier string, hs []*HarnessSpec, outDir string, jobs int)
 	}
 	wg.Wait()
 
+	var stmtTraces []*luaTrace
 	for _, tr := range traces { // validation traces: expectation = encoder output
 		q := tr.query
 		if q.result != smt.Sat {
@@ -348,8 +349,19 @@ func runLuaChecks(prop, tier string, hs []*HarnessSpec, outDir string, jobs int)
 			tr.hist = nil
 			continue
 		}
+		// the same fixed history with the statement's reference semantics as the oracle
+		st := *tr.hist
+		st.Steps = append([]lua.Step{}, tr.hist.Steps...)
+		st.ID += "-statement"
+		if st.Kind == "period" {
+			lua.RefPeriod(&st)
+		} else {
+			lua.RefToken(&st)
+		}
+		stmtTraces = append(stmtTraces, &luaTrace{h: tr.h, role: "fixed-history", label: tr.label + " against the statement", hist: &st})
 		q.enc.Fill(tr.hist, q.model)
 	}
+	traces = append(traces, stmtTraces...)
 	for _, q := range queries {
 		sum := sums[q.h.Name]
 		sum.Labels[q.prop.Label]++
@@ -419,38 +431,43 @@ func runLuaChecks(prop, tier string, hs []*HarnessSpec, outDir string, jobs int)
 			inc("%s: %s %q was not run natively", tr.h.Name, tr.role, tr.label)
 			continue
 		}
-		switch tr.role {
-		case "validation":
+		if tr.role == "validation" { // expectation = the encoder's own concrete evaluation
 			if tr.ok {
 				res.Validated++
 				sum.Validated++
 			} else {
 				inc("%s: the encoder disagrees with the implementation (miniredis through the real Go API) on %s: %s — encoder error, not a finding", tr.h.Name, tr.label, tr.detail)
 			}
-		case "witness":
-			if tr.ok {
-				res.Validated++
-				sum.Validated++
-			} else {
-				inc("%s: witness history %q did not pass natively (%s): symbolic and native worlds disagree (%s)", tr.h.Name, tr.label, tr.detail, tr.query.file)
-			}
-		case "cex":
-			cexFile := filepath.Join(dir, tr.hist.ID+".cex.json")
-			b, _ := json.MarshalIndent(map[string]interface{}{"harness": tr.h.Name, "kind": "lua", "label": tr.label, "lua_history": tr.hist, "values": tr.query.model, "script": tr.query.file}, "", " ")
+			continue
+		}
+		// expectation = the statement's reference semantics: a native deviation is a finding, whatever produced the history
+		var model lua.Model
+		script := ""
+		if tr.query != nil {
+			model, script = tr.query.model, tr.query.file
+		}
+		cexFile := filepath.Join(dir, tr.hist.ID+".cex.json")
+		b, _ := json.MarshalIndent(map[string]interface{}{"harness": tr.h.Name, "kind": "lua", "label": tr.label, "role": tr.role, "lua_history": tr.hist, "values": model, "script": script}, "", " ")
+		switch {
+		case !tr.ok:
 			os.WriteFile(cexFile, b, 0o644)
-			if !tr.ok {
-				res.Validated++
-				sum.Validated++
-				keep := filepath.Join(VerifRoot, "out", "violations", prop)
-				os.MkdirAll(keep, 0o755)
-				dst := filepath.Join(keep, filepath.Base(cexFile))
-				os.WriteFile(dst, b, 0o644)
-				res.Violations = append(res.Violations, fmt.Sprintf("VIOLATION property=%s replay=%s", prop, dst))
+			res.Validated++
+			sum.Validated++
+			keep := filepath.Join(VerifRoot, "out", "violations", prop)
+			os.MkdirAll(keep, 0o755)
+			dst := filepath.Join(keep, filepath.Base(cexFile))
+			os.WriteFile(dst, b, 0o644)
+			res.Violations = append(res.Violations, fmt.Sprintf("VIOLATION property=%s replay=%s", prop, dst))
+			if len(res.Violations) <= 6 {
 				hb, _ := json.Marshal(tr.hist)
-				fmt.Printf("  harness=%s assertion=%q native=%q history=%s\n", tr.h.Name, tr.label, tr.detail, hb)
-			} else {
-				inc("%s: solver counterexample for %q (%s) did not reproduce natively: the real limiter behaves as the statement demands on this history — encoding mismatch, not a finding", tr.h.Name, tr.label, cexFile)
+				fmt.Printf("  harness=%s %s=%q native=%q history=%s\n", tr.h.Name, tr.role, tr.label, tr.detail, hb)
 			}
+		case tr.role == "cex":
+			os.WriteFile(cexFile, b, 0o644)
+			inc("%s: solver counterexample for %q (%s) did not reproduce natively: the real limiter behaves as the statement demands on this history — encoding mismatch, not a finding", tr.h.Name, tr.label, cexFile)
+		default:
+			res.Validated++
+			sum.Validated++
 		}
 	}
 
